@@ -77,6 +77,43 @@ FIRST = {
     'C17-4': ('silent', [], 'C17.R4: no early exit from the reachability sweep; conflicting ways of extending the layer list'),
     'C17-5': ('silent', [], 'C17.R7 value-independent structure of the tree insertion'),
     'C19-4': ('reported', ['C02'], None), 'C19-5': ('reported', [], None),
+    # round 3: refactorings with a hidden slip (one sub-agent per group of source files)
+    'C11-7': ('analysis-error', [], 'load-time normalisation: copies of single-use locals coalesced, bool(...) guards read as their test'),
+    'C12-6': ('reported', ['C13'], None),
+    'C14-6': ('reported', ['C08', 'C09', 'C10'], None), 'C14-7': ('reported', ['C08', 'C09', 'C10'], None),
+    'C17-6': ('reported', ['C03'], None),
+    'C17-7': ('silent', ['C05', 'C07'], 'C17.R9 edge constructor sums repeated ids (rule of C16.R6 instantiated for __init__); '
+                                        'read-modify-write of an accumulator through a comprehension reported as a stale read'),
+    'C17-8': ('silent', [], 'C17.R8 graph tables: add_connect_edge visits both ends without early exit (OpGraph / AutOp as siblings)'),
+    'C17-9': ('reported', ['C03'], None),
+    'C17-10': ('analysis-error', [], 'C17.R2 scoped to the enclosing loops (site index of the active list); violations survive a later '
+                                     'analysis error'),
+    'C07-7': ('reported', [], None), 'C07-8': ('reported', [], None),
+    'C07-9': ('silent', [], 'C07.R9 storage type of preallocated arrays (symbolic element-type lattice, sa/dtypeflow.py)'),
+    'C07-10': ('analysis-error', [], 'operator tables hoisted into tuples are evaluated (C07.R6 / R8)'),
+    'C01-6': ('analysis-error', ['C02'], 'factor algebra: np.sign as a monomial with the constant-sign obligation; real form'),
+    'C01-7': ('analysis-error', [], 'as C01-6'),
+    'C03-5': ('silent', [], 'C03.R7 storage type of preallocated arrays'),
+    'C03-6': ('analysis-error', [], 'label stores of multiply_mpo resolved through locals (rolling pair by induction over the loop); '
+                                    'coverage of the bonds 0..L by the stores; contraction read off the leg value instead of the '
+                                    'tensordot spelling (C04.R3)'),
+    'C05-7': ('reported', ['C07'], None),
+    'C05-8': ('analysis-error', ['C07'], 'violations established before an analysis error are reported (partial-run policy)'),
+    'C13-5': ('reported', [], None),
+    'C02-6': ('reported', ['C13'], None), 'C02-7': ('reported', ['C03', 'C19'], None),
+    'C04-7': ('analysis-error', [], 'C04.R4: delegation to a sibling driver composed with the argument binding; zip(reversed(..)) loops '
+                                    'normalised to index loops'),
+    'C04-8': ('reported', ['C08', 'C10'], None), 'C04-9': ('reported', [], None),
+    'C04-10': ('analysis-error', [], 'C04.R4: kernel call found through the normalised loop'),
+    'C16-5': ('silent', [], 'C16.R4: the fresh-id argument of every rename call is followed to its max(...) + 1, per binding of a loop '
+                            'over a literal tuple of tables (was tied to the names next_nid / next_eid)'),
+    'C16-6': ('reported', ['C05', 'C07'], None),
+    'C10-6': ('reported', ['C02'], None), 'C10-7': ('reported', [], None),
+    'C08-5': ('analysis-error', [], 'sweep machine: local multiples of dt, results of local steps consumed by an in-line QR, views of '
+                                    'site tensors; in-place store into an existing site tensor reported (keeps dtype and shape)'),
+    'C09-5': ('analysis-error', [], 'sweep machine: loop peeling for tests on the first / last position, tests decided by the '
+                                    'number-of-sites case, range(a, b, -1); step budget decided on elementary pieces; palindrome '
+                                    'compared in a normal form of the schedule; C09.R4 step budget for L = 1, 2'),
 }
 
 
